@@ -1,11 +1,14 @@
 import TracklibVerif.Model.DTWTable
 import TracklibVerif.Drv.Util
 /-! Driver handler for C18 (DTW / FDTW / Frechet matching), scalars = `Float` (IEEE bit patterns).
-  match <dtw|fdtw|frechet> <1|2|inf> <dim> <track1> <track2>
-      → <score> <S: i,j;i,j;…> <pairs: a,b;c;…> <nb_links> <diff,…> <ex,…> <ey,…>      (or `err:index`)
-  compare <dtw|fdtw|frechet> <1|2|inf> <dim> <track1> <track2> → <value>
+  match <cls> <dtw|fdtw|frechet> <1|2|inf> <dim> <track1> <track2>
+      → <score> <S: i,j;i,j;…> <pairs: a,b;c;…> <nb_links> <diff,…> <ex,…> <ey,…>      (or `err:index`, `err:attr`, …)
+  compare <cls> <dtw|fdtw|frechet> <1|2|inf> <dim> <track1> <track2> → <value>
   table <1|2|inf> <D columns: d,d;d,d;…> → <T columns> <M columns: i:j,i:j;…>
-  seq <tracks: track|track|…> <pre: 0,1,…> <steps: step;step;…> → <reply> | <reply> | …
+  seq <cls> <tracks: track|track|…> <pre: 0,1,…> <steps: step;step;…> → <reply> | <reply> | …
+  cls = enu | geo | ecef: the class of the position objects of every track of the request (`ENUCoords`, `GeoCoords`, `ECEFCoords`);
+  dim = 1 | 2 | 3 | fn.<name>: a number, or the function form of `dim` with one of the callables the harness passes
+      (manh: |dx| + |dy|, cheb: max(|dx|, |dy|), lead: max(x1 - x2, 0) + |dy| — not symmetric)
       a session of calls on shared objects (`Model.DTWTable.runSeq`): object k < #tracks is track k (`pre` = 1: it already
       carries `diff`, `pair`, `ex`, `ey` features with other values), object #tracks + s is what step s returned.
       step = <m|c>:<mode constant>:<str(type(p)) without blanks>:<p as k|inf|->:<callable p computes k|inf|->:<dim>:<a>:<b>
@@ -28,10 +31,24 @@ def mode? : String → Option Mode
   | "frechet" => some .frechet
   | _ => none
 
-def dim? (s : String) : Option Nat :=
-  match s.toNat? with
-  | some d => if d = 1 ∨ d = 2 ∨ d = 3 then some d else none
-  | none => none
+def fabs (x : Float) : Float := if x < 0 then 0 - x else x
+
+/-- the callables the harness hands over as `dim` (on `getX()`, `getY()` of the two positions) -/
+def dimFn? : String → Option (Pt Float → Pt Float → Float)
+  | "manh" => some (fun p q => fabs (p.x - q.x) + fabs (p.y - q.y))
+  | "cheb" => some (fun p q => pmax (fabs (p.x - q.x)) (fabs (p.y - q.y)))
+  | "lead" => some (fun p q => pmax (p.x - q.x) 0 + fabs (p.y - q.y))
+  | _ => none
+
+def dim? (s : String) : Option (DimArg Float) :=
+  if s.startsWith "fn." then (dimFn? (s.drop 3).toString).map DimArg.fn
+  else s.toNat?.map DimArg.num
+
+def geom? : String → Option (Geom Float)
+  | "enu" => some { cls := .enu, T := TV.Geo.floatTrig }
+  | "geo" => some { cls := .geo, T := TV.Geo.floatTrig }
+  | "ecef" => some { cls := .ecef, T := TV.Geo.floatTrig }
+  | _ => none
 
 def pnorm? (s : String) : Option PNorm :=
   if s == "inf" then some .inf else s.toNat?.map PNorm.nat
@@ -43,7 +60,7 @@ def root (k : Nat) (x : Float) : Float :=
 def optNorm? (s : String) : Option (Option PNorm) :=
   if s == "-" then some none else (pnorm? s).map some
 
-def step? (s : String) : Option Step :=
+def step? (s : String) : Option (Step Float) :=
   match s.splitOn ":" with
   | [f, m, ty, v, fn, d, a, b] => do
     let front ← (if f == "m" then some true else if f == "c" then some false else none)
@@ -91,27 +108,27 @@ def showRes : Res Float → String
 
 def handle (cmd : String) (args : List String) : String :=
   match cmd, args with
-  | "match", [m, p, d, a, b] =>
-    match mode? m, pnorm? p, dim? d, track? a, track? b with
-    | some m, some p, some d, some t1, some t2 =>
-      match matchTracks Float.sqrt big m p d t1 t2 with
+  | "match", [c, m, p, d, a, b] =>
+    match geom? c, mode? m, pnorm? p, dim? d, track? a, track? b with
+    | some G, some m, some p, some d, some t1, some t2 =>
+      match matchTracks G big m p d t1 t2 with
       | .ok o => showOut o
       | .error e => e
-    | _, _, _, _, _ => "bad-request"
-  | "compare", [m, p, d, a, b] =>
-    match mode? m, pnorm? p, dim? d, track? a, track? b with
-    | some m, some p, some d, some t1, some t2 =>
-      match compareTracks Float.sqrt root Nat.toFloat big m p d t1 t2 with
+    | _, _, _, _, _, _ => "bad-request"
+  | "compare", [c, m, p, d, a, b] =>
+    match geom? c, mode? m, pnorm? p, dim? d, track? a, track? b with
+    | some G, some m, some p, some d, some t1, some t2 =>
+      match compareTracks G root Nat.toFloat big m p d t1 t2 with
       | .ok v => showFloat v
       | .error e => e
-    | _, _, _, _, _ => "bad-request"
-  | "seq", [ts, pre, steps] =>
-    match natList? pre, (splitTok steps ';').mapM step? with
-    | some pre, some steps =>
+    | _, _, _, _, _, _ => "bad-request"
+  | "seq", [c, ts, pre, steps] =>
+    match geom? c, natList? pre, (splitTok steps ';').mapM step? with
+    | some G, some pre, some steps =>
       match zipObjs? (splitTok ts '|') pre with
-      | some env => " | ".intercalate ((runSeq Float.sqrt root Nat.toFloat big env steps).map showRes)
+      | some env => " | ".intercalate ((runSeq G root Nat.toFloat big env steps).map showRes)
       | none => "bad-request"
-    | _, _ => "bad-request"
+    | _, _, _ => "bad-request"
   | "table", [p, dc] =>
     match pnorm? p, floatListList? dc with
     | some p, some cols =>
